@@ -382,7 +382,7 @@ func runRouter(rc *harness.RunCtx, fineMode bool) (harness.Outcome, []hRecord, m
 	cl.Faults = fm
 
 	// plan exchanges
-	nsPool := []string{"a", "b", "sess1", "x"}
+	nsPool := []string{"a", "b", "sess1", "x", "", ".", "..", "a.b", "a b"} // only "/" is forbidden in a namespace label
 	cidPool := []string{"R1", "R2", "UNICAST:R1", "k"}
 	ne := 1 + w.IntN(5)
 	for len(rr.exch) < ne {
